@@ -51,7 +51,7 @@ package inject
 //@ define injOK(inj *injector) bool = inj.values != nil && (forall k reflect.Type :: has(inj.values, k) ==> k != nil)
 
 //@ func (*injector).Value
-//@   props C04 C05
+//@   props C04 C05 C17
 //@   requires injOK(inj) && t != nil
 //@   modifies nothing
 //@   ensures valueOK(inj, t, result)
@@ -65,6 +65,7 @@ package inject
 //@ ghost private field injector.applyTarget reflect.Value        // the struct value (pointers removed) of the current Apply
 //@ define applyWanted(sv reflect.Value, i int) bool = rvCanSet(rvField(sv, i)) && tagHas(rtFieldTag(rvType(sv), i), "inject")
 //@ func (*injector).Apply
+//@   partial-anchors
 //@   props C04
 //@   requires injOK(inj)
 //@   modifies inj.applied, inj.applyTarget
@@ -79,7 +80,7 @@ package inject
 
 // registration: a later registration for the same type replaces the earlier one
 //@ func (*injector).MapTo
-//@   props C04
+//@   props C04 C17
 //@   requires inj.values != nil
 //@   modifies inj.values[*]
 //@   panics true
